@@ -192,7 +192,38 @@ def run_scenario(initiator, kind, sender_threads=0, ctt=2.0, deadline=6.0, trigg
                 result["exc"]["open2"] = type(e).__name__
         threading.Thread(target=opener2, daemon=True).start()
         time.sleep(0.05)       # opener2 is now waiting for clear_to_send (it must not hold Transport.lock there)
-    uts = [threading.Thread(target=user_sender, args=(i,), daemon=True) for i in range(sender_threads)]
+    api_log = []
+
+    def api_sender(api):
+        # one application thread per user-level sending API of A, each used repeatedly while the exchange is running
+        k = 0
+        while not stop.is_set() and k < 30:
+            try:
+                if api == "global_nowait":
+                    A.global_request("verif-nowait@example", wait=False)
+                elif api == "send_ignore":
+                    A.send_ignore(8)
+                elif api == "stderr":
+                    chA.send_stderr(b"e")
+                elif api == "chan_request_noreply":
+                    chA2.send_exit_status(k) if A is sess.ts else chA2.resize_pty(80 + k, 24)
+                api_log.append(api)
+                k += 1
+            except Exception as e:
+                result["exc"]["api_" + api] = type(e).__name__
+                return
+    if kind == "user_apis":
+        uts_api = [threading.Thread(target=api_sender, args=(a,), daemon=True)
+                   for a in ("global_nowait", "send_ignore", "stderr", "chan_request_noreply")]
+    else:
+        uts_api = []
+    if kind == "keepalive_timer":
+        # the initiator's keepalive timer fires while the exchange is held up by the delayed peer
+        A.set_keepalive(0.05)
+        time.sleep(0.4)
+    uts = [threading.Thread(target=user_sender, args=(i,), daemon=True) for i in range(sender_threads)] + uts_api
+    if uts_api:
+        time.sleep(0.05)
     for u in uts:
         u.start()
     time.sleep(0.01)
